@@ -243,7 +243,9 @@ def _(c):
     c.self(EZ)
     c.effect_name = "ezsp.add_callback"
     c.arg("cb", T.ext(CALLBACK))
-    c.loop(0, invariants=[("id_is_an_int", lambda id_: id_ == id_)])
+    # (the search for a free id needs no invariant beyond the state's own shape; stated over the table, not over the
+    # name of the local that holds the candidate id)
+    c.loop(0, invariants=[("id_is_an_int", lambda self: len(self._callbacks) >= 0)])
     c.returns(T.int)
     c.ensures("post.registered_under_fresh_id", lambda self, cb, result: not old(result in self._callbacks) and self._callbacks[result] is cb,
               at_calls=False)
